@@ -102,6 +102,7 @@ type Goroutine struct {
 	yielded bool
 	lowPrio bool
 	noPreemptAt ssa.Instruction // the visible operation at which this goroutine was already offered a preemption
+	vc          vclock          // happens-before clock (race detection)
 }
 
 type undoRec struct {
@@ -128,6 +129,9 @@ type Exec struct {
 	schedBound  int        // delay bound for schedule exploration (0: one cooperative schedule)
 	schedBudget int        // delays left on the current path
 	schedRev    bool       // base schedule prefers the youngest runnable goroutine
+	raceOn      bool
+	race        *raceState
+	trackedCache map[*ssa.Function]bool
 	forcePick   *Goroutine // goroutine chosen by a preemption decision
 	schedPoints int        // preemption decisions offered on the current path
 	globals map[*ssa.Global]*Cell
@@ -505,6 +509,7 @@ func (e *Exec) step(g *Goroutine) {
 		if p.C == nil {
 			e.goPanic("runtime error: invalid memory address or nil pointer dereference")
 		}
+		e.raceCell(p.C, true, fr)
 		e.store(p.C, e.get(fr, in.Val))
 		fr.ip++
 	case *ssa.UnOp:
@@ -622,6 +627,9 @@ func (e *Exec) step(g *Goroutine) {
 		e.set(fr, in, tv[in.Index])
 		fr.ip++
 	case *ssa.Lookup:
+		if mv, ok := e.get(fr, in.X).(MapVal); ok {
+			e.raceMap(mv.M, false, fr)
+		}
 		e.lookup(fr, in)
 		fr.ip++
 	case *ssa.MapUpdate:
@@ -629,6 +637,7 @@ func (e *Exec) step(g *Goroutine) {
 		if m.M == nil {
 			e.goPanic("assignment to entry in nil map")
 		}
+		e.raceMap(m.M, true, fr)
 		e.mapSet(m.M, e.get(fr, in.Key), e.get(fr, in.Value))
 		fr.ip++
 	case *ssa.Range:
@@ -719,6 +728,7 @@ func (e *Exec) unop(g *Goroutine, fr *Frame, in *ssa.UnOp) {
 		if p.C == nil {
 			e.goPanic("runtime error: invalid memory address or nil pointer dereference")
 		}
+		e.raceCell(p.C, false, fr)
 		e.set(fr, in, e.load(p.C))
 	case token.NOT:
 		e.set(fr, in, Not(x.(*Term)))
